@@ -150,7 +150,11 @@ class Engine(Exec):
         if name == 'range':
             if all(is_cint(a) for a in args):
                 return list(range(*args))
-            raise OutOfReach('symbolic range outside a for loop')
+            if len(args) == 2:
+                return V.SymRange(args[0], args[1])
+            if len(args) == 1:
+                return V.SymRange(0, args[0])
+            raise OutOfReach('symbolic range with step')
         if name == 'enumerate':
             if isinstance(args[0], (list, tuple)):
                 return list(enumerate(args[0]))
@@ -408,6 +412,11 @@ class Engine(Exec):
                 mods = arr_params
         for p in mods:
             a = env.get(p)
+            if a is None and p not in env:
+                try:
+                    a = self.ev_clause_val(p, callee_st, cfr)
+                except OutOfReach:
+                    a = None
             if isinstance(a, (Buf, BufRef, BufView)):
                 self.havoc_buf(st, a)
                 continue
@@ -431,6 +440,9 @@ class Engine(Exec):
             st.objs[o.oid] = {'_name': nm, '_size': lsize(ZI(nid)), '_shape': ('shape-of', nm)}
             st.pc.append(lsize(ZI(nid)) >= 0)
             result = o
+            post_st.env['result'] = result
+        elif c.returns is not None and c.returns.startswith('expr:'):
+            result = self.ev_clause_val(c.returns[5:], callee_st, cfr)
             post_st.env['result'] = result
         elif c.returns is not None:
             if c.pure:
@@ -773,6 +785,10 @@ class Engine(Exec):
             seq = list(seq)
             return 0, len(seq), (lambda s, i: (self.assign(tgt.elts[0], i, s, fr), self.assign(tgt.elts[1], seq[i], s, fr))), iname
         seq = self.ev(it, st, fr)
+        if isinstance(seq, V.SymRange):
+            if not isinstance(tgt, ast.Name):
+                raise OutOfReach('range target')
+            return seq.lo, seq.hi, (lambda s, i: self.assign(tgt, i, s, fr)), tgt.id
         if self.is_arr(seq):
             if seq.rank != 1:
                 raise OutOfReach('iteration over rank>1 array')
